@@ -1528,6 +1528,19 @@ def run(ck):
 
     ck.repo = canonical(ck.repo, ['tornado/template.py'], keep_names=('_DEFAULT_AUTOESCAPE',))
 
+    # function splitting: single-use private helpers of template.py are inlined first (vt.x_wsnorm)
+    from .. import x_wsnorm
+
+    try:
+        ck.repo = x_wsnorm.normalize(ck.repo, T, keep={"_parse", "_get_ancestors", "_generate_python", "_create_template"})
+    except (SyntaxError, RecursionError, ValueError) as e:
+        raise AnalysisError("normalisation of %s failed: %s" % (T, e))
+    # one level of delegation: private helpers the rules do not anchor on (also multi-use ones) are
+    # replaced by their bodies at the call sites (vt.x_inline); what cannot be inlined stays a call
+    # and is reported by guard_obligations below
+    from .. import x_inline
+
+    ck.repo = x_inline.inline_repo(ck.repo, [T], keep=['_parse', '_get_ancestors', '_generate_python', '_format_code', '_create_template', '_find_directive'])
     guard_obligations(ck, ['_parse', '_get_ancestors', '_generate_python', '_format_code', '_create_template', '_find_directive'])
     ck.rule("C19.raise-class", "every raise statement in the call closure of _parse / _get_ancestors constructs ParseError; a helper raising another class is only called behind a handler that raises ParseError or a membership guard over the values it accepts")
     ck.rule("C19.error-line", "raise_parse_error raises ParseError(message, reader.name, reader.line); ParseError keeps them; consume() advances reader.line by the newlines of exactly the consumed span before moving pos; _parse never raises directly")
